@@ -86,6 +86,7 @@ structure BInv (d : Dfa) (i : Nat) (order : List Nat) : Prop where
   reach : ∀ m, m ∈ order → m < d.size ∧ Dfa.Reach d m
   closed : ∀ j q, j < i → order[j]? = some q → ∀ e, e ∈ d.edgesOf q → e.2 ∈ order
   zero : 0 ∈ order
+  head : order[0]? = some 0
   le : i ≤ order.length
 
 theorem bfs_go_spec (d : Dfa) (hd : d.WF) : ∀ (fuel i : Nat) (order : List Nat), BInv d i order →
@@ -114,7 +115,7 @@ theorem bfs_go_spec (d : Dfa) (hd : d.WF) : ∀ (fuel i : Nat) (order : List Nat
       have hqmem : q ∈ order := List.mem_of_getElem? hq
       obtain ⟨h1, ⟨l, h2⟩, h3⟩ := addTargets_spec (d.edgesOf q) order h.nodup
       have hi : i < order.length := (List.getElem?_eq_some_iff.1 hq).1
-      refine ih (i + 1) _ ⟨h1, ?_, ?_, ?_, ?_⟩ (by omega)
+      refine ih (i + 1) _ ⟨h1, ?_, ?_, ?_, ?_, ?_⟩ (by omega)
       · intro m hm
         rcases (h3 m).1 hm with hm | ⟨e, he, rfl⟩
         · exact h.reach m hm
@@ -132,19 +133,22 @@ theorem bfs_go_spec (d : Dfa) (hd : d.WF) : ∀ (fuel i : Nat) (order : List Nat
           cases hq''
           exact (h3 _).2 (Or.inr ⟨e, he, rfl⟩)
       · exact (h3 0).2 (Or.inl h.zero)
+      · show (addTargets order (d.edgesOf q))[0]? = some 0
+        rw [h2, List.getElem?_append_left (by omega)]
+        exact h.head
       · show i + 1 ≤ (addTargets order (d.edgesOf q)).length
         rw [h2, List.length_append]; omega
 
 /-- the work list of `check_for_dead_ends` is the set of reachable states -/
 theorem bfsOrder_spec (d : Dfa) (hd : d.WF) :
-    d.bfsOrder.Nodup ∧ ∀ q, q ∈ d.bfsOrder ↔ Dfa.Reach d q := by
+    d.bfsOrder.Nodup ∧ d.bfsOrder[0]? = some 0 ∧ ∀ q, q ∈ d.bfsOrder ↔ Dfa.Reach d q := by
   have h0 : BInv d 0 [0] := ⟨by simp, by
     intro m hm
     simp only [List.mem_singleton] at hm
     subst hm
-    exact ⟨hd.pos, .start⟩, by intro j q hj; omega, by simp, by simp⟩
+    exact ⟨hd.pos, .start⟩, by intro j q hj; omega, by simp, by simp, by simp⟩
   have h := bfs_go_spec d hd (d.size + 1) 0 [0] h0 (by omega)
-  refine ⟨h.nodup, fun q => ⟨fun hq => (h.reach q hq).2, ?_⟩⟩
+  refine ⟨h.nodup, h.head, fun q => ⟨fun hq => (h.reach q hq).2, ?_⟩⟩
   intro hr
   induction hr with
   | start => exact h.zero
@@ -271,7 +275,7 @@ theorem liveLoop_spec (d : Dfa) (gen : Nat → Bool) (W : List Nat) : ∀ (fuel 
     cannot reach a valid end through generatable node types alone -/
 theorem hasDeadEnd_iff (d : Dfa) (hd : d.WF) (gen : Nat → Bool) :
     d.hasDeadEnd gen = false ↔ ∀ q, Dfa.Reach d q → Dfa.GenLive d gen q := by
-  obtain ⟨hnd, hreach⟩ := bfsOrder_spec d hd
+  obtain ⟨hnd, _, hreach⟩ := bfsOrder_spec d hd
   have hinv0 : LiveInv d gen d.bfsOrder (d.bfsOrder.filter d.validEnd) :=
     ⟨hnd.filter _, fun q hq => (List.mem_filter.1 hq).1, fun q hq => .here (List.mem_filter.1 hq).2⟩
   obtain ⟨r1, r2, r3⟩ := liveLoop_spec d gen d.bfsOrder (d.bfsOrder.length + 1) _ hinv0 (by omega)
@@ -298,5 +302,77 @@ theorem hasDeadEnd_iff (d : Dfa) (hd : d.WF) (gen : Nat → Bool) :
         have := this e he
         simp [hmem, hgen] at this
     exact key q (h q ((hreach q).1 hq)) ((hreach q).1 hq)
+
+/-! ### renumbering by breadth-first order keeps the behaviour -/
+
+theorem bfs_getElem (d : Dfa) (i q : Nat) (hq : d.bfsOrder[i]? = some q) :
+    d.bfs[i]? = some ⟨d.validEnd q, (d.edgesOf q).map (fun e => (e.1, d.bfsOrder.idxOf e.2))⟩ := by
+  unfold Dfa.bfs
+  simp only [List.getElem?_toArray, List.getElem?_map, hq, Option.map_some]
+
+theorem find_map_snd (f : Nat → Nat) (t : Nat) (es : List (Nat × Nat)) :
+    ((es.map (fun e => (e.1, f e.2))).find? (fun e => e.1 == t)).map (·.2) =
+      ((es.find? (fun e => e.1 == t)).map (·.2)).map f := by
+  induction es with
+  | nil => rfl
+  | cons e es ih =>
+    simp only [List.map_cons, List.find?_cons]
+    by_cases h : (e.1 == t) = true
+    · simp [h]
+    · have h' : (e.1 == t) = false := by simpa using h
+      simp only [h']
+      exact ih
+
+theorem bfs_matchType (d : Dfa) (i q : Nat) (hq : d.bfsOrder[i]? = some q) (t : Nat) :
+    d.bfs.matchType i t = (d.matchType q t).map (fun q' => d.bfsOrder.idxOf q') := by
+  have h1 : d.bfs.edgesOf i = (d.edgesOf q).map (fun e => (e.1, d.bfsOrder.idxOf e.2)) := by
+    rw [Dfa.edgesOf, bfs_getElem d i q hq]
+  rw [Dfa.matchType, h1]
+  exact find_map_snd (fun q' => d.bfsOrder.idxOf q') t (d.edgesOf q)
+
+theorem idxOf_getElem? {l : List Nat} {q : Nat} (h : q ∈ l) : l[l.idxOf q]? = some q := by
+  have hlt := List.idxOf_lt_length_iff.2 h
+  rw [List.getElem?_eq_getElem hlt, List.getElem_idxOf hlt]
+
+/-- the automaton renumbered breadth-first (the form the harness dumps, and `NodeType.dfa` holds) runs like
+    the original -/
+theorem bfs_run (d : Dfa) (hd : d.WF) (w : List Nat) : ∀ q, Dfa.Reach d q →
+    d.bfs.run (d.bfsOrder.idxOf q) w = (d.run q w).map (fun q' => d.bfsOrder.idxOf q') ∧
+    ∀ q', d.run q w = some q' → Dfa.Reach d q' := by
+  obtain ⟨_, _, hreach⟩ := bfsOrder_spec d hd
+  induction w with
+  | nil => intro q hq; exact ⟨rfl, fun q' h => by cases h; exact hq⟩
+  | cons t w ih =>
+    intro q hq
+    unfold Dfa.run
+    rw [bfs_matchType d _ q (idxOf_getElem? ((hreach q).2 hq)) t]
+    cases hm : d.matchType q t with
+    | none => exact ⟨rfl, fun q' h => by simp at h⟩
+    | some q1 =>
+      have hr1 : Dfa.Reach d q1 := by
+        unfold Dfa.matchType at hm
+        rw [Option.map_eq_some_iff] at hm
+        obtain ⟨e, he, rfl⟩ := hm
+        exact .step hq (List.mem_of_find?_eq_some he)
+      simp only [Option.map_some]
+      exact ih q1 hr1
+
+theorem bfs_accepts (d : Dfa) (hd : d.WF) (w : List Nat) :
+    d.bfs.accepts w = d.accepts w ∧ (d.bfs.run 0 w).isSome = (d.run 0 w).isSome := by
+  obtain ⟨_, hhead, hreach⟩ := bfsOrder_spec d hd
+  have h0 : d.bfsOrder.idxOf 0 = 0 := by
+    cases hl : d.bfsOrder with
+    | nil => rw [hl] at hhead; simp at hhead
+    | cons a l => rw [hl] at hhead; simp at hhead; subst hhead; simp
+  obtain ⟨hrun, hr⟩ := bfs_run d hd w 0 .start
+  rw [h0] at hrun
+  unfold Dfa.accepts
+  rw [hrun]
+  cases hq : d.run 0 w with
+  | none => simp
+  | some q =>
+    simp only [Option.map_some, Option.isSome_some, and_true]
+    have hqr := hr q hq
+    rw [Dfa.validEnd, bfs_getElem d _ q (idxOf_getElem? ((hreach q).2 hqr))]
 
 end PM
